@@ -647,6 +647,11 @@ class Fn:
                     # the variant of an enum literal is known: the same one is read through, another one is dead
                     if e.info['variant'] != x['n']:
                         e = E('never')
+                elif e.kind == 'phi' and x.get('n') and e.args and all(
+                        c.kind == 'agg' and c.info.get('ak') == 'adt' and c.info.get('variant') for c in e.args):
+                    # a join of enum literals read through one variant: only the candidates of that variant are read
+                    live = [c for c in e.args if c.info['variant'] == x['n']]
+                    e = E('never') if not live else (live[0] if len(live) == 1 else E('phi', args=live, info=dict(e.info)))
                 else:
                     e = E('proj', a=e, op='downcast', info={'n': x.get('n', ''), 'v': x.get('v')})
             else:
@@ -664,6 +669,22 @@ class Fn:
                 e = E('binop', op=op, a=inner.args[0], b=inner.args[1], bb=bb, info={'checked': True, 'line': t.get('line')})
                 e.pos = Pos(bb, len(self.blocks[bb]['st']))
                 return e
+        if len(args) == 1 and nm.endswith('Try>::branch') and ('Result' in nm or 'Option' in nm):
+            # `?` on an Option / Result *literal* (a helper returning Ok(..) / Err(..) was spliced in): branch(Ok(x)) is
+            # Continue(x), branch(Err(e)) is Break(Err(e)) -- core's impls; the variant reads fold as for any literal
+            def _branch(v):
+                v = v.strip()
+                if v.kind == 'agg' and v.info.get('ak') == 'adt' and v.info.get('variant') in ('Ok', 'Some') and len(v.args) == 1:
+                    return E('agg', args=[v.args[0]], info={'ak': 'adt', 'name': 'core::ops::ControlFlow', 'variant': 'Continue'})
+                if v.kind == 'agg' and v.info.get('ak') == 'adt' and v.info.get('variant') in ('Err', 'None'):
+                    return E('agg', args=[v], info={'ak': 'adt', 'name': 'core::ops::ControlFlow', 'variant': 'Break'})
+                return None
+            a0 = args[0].strip()
+            outs = [_branch(x) for x in a0.args] if a0.kind == 'phi' else [_branch(a0)]
+            if outs and all(o is not None for o in outs):
+                if len(outs) == 1:
+                    return outs[0]
+                return E('phi', args=outs, info={'l': a0.info.get('l')})
         if args and nm.rsplit('::', 1)[-1] in ('expect', 'unwrap') and 'esult' in nm:
             # `T::try_from(x).unwrap()` between integer types is `x as T` with the fit asserted: the value is the cast's
             inner = args[0].strip()
